@@ -30,6 +30,7 @@ type SOp struct {
 	N    int    `json:"n,omitempty"` // advance: seconds; set: 0 = new version, k>0 = activate existing version ((k-1) mod count)+1
 	// poll only:
 	Fail      []string `json:"fail,omitempty"`       // names whose request fails in this poll
+	FailKind  string   `json:"fail_kind,omitempty"`  // how: err (default) | notfound | denied
 	MidAfter  int      `json:"mid_after,omitempty"`  // after this many requests of the poll (1-based; 0 = none) ...
 	MidName   string   `json:"mid_name,omitempty"`   // ... the service activates a new version of this name
 	MidHandle string   `json:"mid_handle,omitempty"` // ... and/or the program obtains a handle for this name (and reads it)
@@ -58,6 +59,16 @@ type mname struct {
 const clockStart = int64(1_700_000_000)
 
 func valueOf(name string, ver uint32) []byte { return []byte(fmt.Sprintf("%s#%d", name, ver)) }
+
+// histValue gives the bytes of (name, version) in store histories. Versions v and v+3 of a secret
+// have IDENTICAL bytes (an operator re-puts an old value later): freshness is a matter of version
+// numbers, not of bytes.
+func histValue(name string, ver uint32) []byte {
+	if ver >= 4 {
+		return []byte(fmt.Sprintf("%s#%d", name, (ver-1)%3+1))
+	}
+	return []byte(fmt.Sprintf("%s#%d", name, ver))
+}
 
 var allStoreNames = []string{"d1", "d2", "u1", "u2", "u3"}
 
@@ -160,7 +171,7 @@ func (r *storeRun) docCheck(step int, what string, atPoll bool, window map[strin
 			}
 			m.last = e.LastAccess
 		}
-		if !bytes.Equal(e.Value, valueOf(n, e.Version)) {
+		if !bytes.Equal(e.Value, histValue(n, e.Version)) {
 			return r.viol("cache-agrees-after-poll", "step %d %s: cache holds %q v%d = %q, the service never served that", step, what, n, e.Version, e.Value)
 		}
 		if window != nil && !may {
@@ -195,7 +206,7 @@ func (r *storeRun) run() *h.Violation {
 	r.clock = fake.NewClock(clockStart)
 	r.nver = map[string]uint32{}
 	for _, n := range allStoreNames {
-		r.svc.Set(n, 1, valueOf(n, 1))
+		r.svc.Set(n, 1, histValue(n, 1))
 		r.nver[n] = 1
 	}
 	r.model = map[string]*mname{}
@@ -205,7 +216,7 @@ func (r *storeRun) run() *h.Violation {
 		if s.Last == 0x7fffffff {
 			last = 0
 		}
-		seed[s.Name] = model.CacheEntry{Version: 1, Value: valueOf(s.Name, 1), LastAccess: last}
+		seed[s.Name] = model.CacheEntry{Version: 1, Value: histValue(s.Name, 1), LastAccess: last}
 		r.model[s.Name] = &mname{last: last, ver: 1}
 	}
 	var init []byte
@@ -244,8 +255,8 @@ func (r *storeRun) run() *h.Violation {
 			}
 			got := hd.Get()
 			m.last = r.clock.Unix()
-			if !bytes.Equal(got, valueOf(o.Name, m.ver)) {
-				if v := r.viol("read-yields-served-value", "step %d: handle of %q yields %q, want version %d = %q", i, o.Name, got, m.ver, valueOf(o.Name, m.ver)); v != nil {
+			if !bytes.Equal(got, histValue(o.Name, m.ver)) {
+				if v := r.viol("read-yields-served-value", "step %d: handle of %q yields %q, want version %d = %q", i, o.Name, got, m.ver, histValue(o.Name, m.ver)); v != nil {
 					return v
 				}
 			}
@@ -323,7 +334,7 @@ func (r *storeRun) run() *h.Violation {
 				v = uint32((o.N-1)%int(n)) + 1
 				r.info.Class("activate-existing-version")
 			}
-			r.svc.Set(o.Name, v, valueOf(o.Name, v))
+			r.svc.Set(o.Name, v, histValue(o.Name, v))
 		case "advance":
 			r.clock.Advance(int64(o.N))
 		case "poll":
@@ -332,8 +343,12 @@ func (r *storeRun) run() *h.Violation {
 				v, _, _ := r.svc.Active(n)
 				window[n] = map[uint32]bool{v: true}
 			}
+			fk := o.FailKind
+			if fk == "" {
+				fk = "err"
+			}
 			for _, f := range o.Fail {
-				r.svc.SetScript(f, []fake.Beh{{Kind: "err"}})
+				r.svc.SetScript(f, []fake.Beh{{Kind: fk}})
 			}
 			r.svc.ResetCount()
 			pinnedMid := ""
@@ -346,7 +361,7 @@ func (r *storeRun) run() *h.Violation {
 					if o.MidName != "" {
 						nv := r.nver[o.MidName] + 1
 						r.nver[o.MidName] = nv
-						r.svc.Set(o.MidName, nv, valueOf(o.MidName, nv))
+						r.svc.Set(o.MidName, nv, histValue(o.MidName, nv))
 						window[o.MidName][nv] = true
 						r.info.Class("change-during-poll")
 					}
@@ -374,7 +389,7 @@ func (r *storeRun) run() *h.Violation {
 						m.handle = true
 						got := hd.Get()
 						m.last = r.clock.Unix()
-						if !bytes.Equal(got, valueOf(o.MidHandle, m.ver)) {
+						if !bytes.Equal(got, histValue(o.MidHandle, m.ver)) {
 							midViolation = r.viol("read-yields-served-value", "step %d: handle of %q taken during a poll yields %q, want version %d", i, o.MidHandle, got, m.ver)
 						}
 						pinnedMid = o.MidHandle
@@ -419,7 +434,7 @@ func (r *storeRun) run() *h.Violation {
 			}
 			injected := false
 			for _, rq := range r.svc.Log()[l0:] {
-				if rq.Outcome == "error:injected" {
+				if rq.Outcome == "error:injected" || rq.Outcome == "error:notfound" || rq.Outcome == "error:denied" {
 					injected = true
 				}
 			}
@@ -440,6 +455,10 @@ func (r *storeRun) run() *h.Violation {
 								return v
 							}
 						}
+					}
+					// and whatever it dropped must have been droppable
+					if v := r.docCheck(i, what, true, nil); v != nil {
+						return v
 					}
 				}
 				continue
@@ -505,7 +524,7 @@ func genStoreCase(rt *rapid.T, prop string) StoreCase {
 		for i := 0; i < n; i++ {
 			c.Seeds = append(c.Seeds, CacheSeed{
 				Name: []string{"u1", "u2"}[i],
-				Last: int64(rapid.SampledFrom([]int{0x7fffffff, -1000, -11, -10, -9, 0, 50}).Draw(rt, "stamp")),
+				Last: int64(rapid.SampledFrom([]int{0x7fffffff, -1000, -11, -10, -9, 0, 1, 50, 100000}).Draw(rt, "stamp")),
 			})
 		}
 	}
@@ -522,10 +541,11 @@ func genStoreCase(rt *rapid.T, prop string) StoreCase {
 		case "advance":
 			o.N = rapid.SampledFrom([]int{1, 9, 10, 11, 11, 11, 99, 100, 101, 500}).Draw(rt, "secs")
 		case "poll":
+			if rapid.IntRange(0, 4).Draw(rt, "withfail") == 0 {
+				o.Fail = rapid.SliceOfNDistinct(rapid.SampledFrom(allStoreNames), 1, 2, func(s string) string { return s }).Draw(rt, "fail")
+				o.FailKind = rapid.SampledFrom([]string{"err", "err", "notfound", "denied"}).Draw(rt, "failkind")
+			}
 			if prop == "C11" {
-				if rapid.IntRange(0, 4).Draw(rt, "withfail") == 0 {
-					o.Fail = rapid.SliceOfNDistinct(rapid.SampledFrom(allStoreNames), 1, 2, func(s string) string { return s }).Draw(rt, "fail")
-				}
 				if rapid.IntRange(0, 4).Draw(rt, "withmid") == 0 {
 					o.MidAfter = rapid.IntRange(1, 3).Draw(rt, "midafter")
 					o.MidName = rapid.SampledFrom(allStoreNames).Draw(rt, "midname")
@@ -595,7 +615,7 @@ var c11 = &h.Campaign[StoreCase]{
 
 var c19 = &h.Campaign[StoreCase]{
 	Prop: "C19", Sub: "history",
-	Rule: "rapid: the same store histories as C11 (without injected poll failures), judged by the expiry rules: a name may vanish from the cache document only at a poll and only if undeclared AND an age is set AND now-lastAccess > age AND no handle/watcher was handed out by this process; every document must carry the model's last-access stamps (reads refresh them; they survive restart because the model is reloaded from the last document actually written); non-trivial = a history in which an expiration happened and some secret was read/pinned; distinct by history",
+	Rule: "rapid: the same store histories as C11 (polls may carry per-request failures: plain error, not-found or access-denied), judged by the expiry rules: a name may vanish from the cache document only at a poll and only if undeclared AND an age is set AND now-lastAccess > age AND no handle/watcher was handed out by this process; every document must carry the model's last-access stamps (reads refresh them; they survive restart because the model is reloaded from the last document actually written); non-trivial = a history in which an expiration happened and some secret was read/pinned; distinct by history",
 	Quick: 10000, Thorough: 2000000,
 	Gen:   func(rt *rapid.T) StoreCase { return genStoreCase(rt, "C19") },
 	Run:   runStoreCase("C19"),
